@@ -140,6 +140,9 @@ class Universe:
         d = self.desc["mols"][k]
         if fresh or k not in self._mols:
             m = zoo.make_mol(d["name"], d["basis"], shift=d.get("shift"))
+            if d.get("abs_coords") is not None:
+                m = m.set_geom_(np.asarray(d["abs_coords"]), unit="Bohr", inplace=False)
+                m.verbose = 0
             if fresh:
                 return m
             self._mols[k] = m
@@ -649,8 +652,11 @@ def gen_ks_history(seed):
     ops = []
     cur = 0
     for _ in range(rng.randint(3, 7)):
-        c = rng.weighted([("veff", 5), ("scf", 2), ("reset", 4), ("level", 1)])
-        if c == "reset":
+        c = rng.weighted([("veff", 5), ("scf", 2), ("reset", 4), ("level", 1), ("displace", 2)])
+        if c == "displace":
+            # geometry step of a scan: the SAME Mole object is moved in place, then reset(mol)
+            ops.append({"op": "displace", "delta": [[rng.uniform(-0.25, 0.25) for _ in range(3)] for _ in range(4)]})
+        elif c == "reset":
             cur = rng.below(nmol)
             ops.append({"op": "reset", "mol": cur})
         elif c == "level":
@@ -663,6 +669,9 @@ def gen_ks_history(seed):
 
 
 def exec_ks_history(hist, rp):
+    import copy
+
+    hist = copy.deepcopy(hist)  # geometry steps update the local molecule descriptions
     U = Universe(hist)
     viol = []
     stats = Counter()
@@ -716,6 +725,18 @@ def exec_ks_history(hist, rp):
                 ks.grids.level = level
                 ks.reset(U.mol(cur))
                 continue
+            if c == "displace":
+                m = U.mol(cur)
+                xyz = m.atom_coords(unit="Bohr") + np.asarray(op["delta"])[: m.natm]
+                m.set_geom_(xyz, unit="Bohr")  # in place, as PySCF's geometry scanners do
+                m.verbose = 0
+                # fresh references and density matrices must see the new geometry
+                hist["mols"][cur] = dict(hist["mols"][cur], abs_coords=xyz.tolist())
+                for key in [k for k in U._dms if k[0] == cur]:
+                    del U._dms[key]
+                ks.reset(m)
+                stats["in_place_displacements"] += 1
+                continue
             got, inputs_ok = do(ks, U.mol(cur), op, cur)
         except Exception as ex:
             import traceback
@@ -744,9 +765,79 @@ def exec_ks_history(hist, rp):
 # ---------------------------------------------------------------------------------
 # plan-level histories (NLDF plans cache interpolation tensors and l=1 vectors per spin)
 # ---------------------------------------------------------------------------------
+def gen_slplan_history(seed):
+    rng = Rng(derive("c09-slplan", seed))
+    ops = []
+    for _ in range(rng.randint(3, 8)):
+        if rng.chance(0.5):
+            ops.append({"op": "feat", "rho": rng.below(3)})
+        else:
+            ops.append({"op": "vxc", "rho": rng.below(3), "v": rng.below(3), "into": bool(rng.chance(0.3))})
+    return {"kind": "slplan", "mode": rng.choice(["npa", "nst", "np", "ns"]), "nspin": rng.choice([1, 2]), "n": rng.choice([1, 7, 64, 200]), "dseed": rng.below(10**6), "ops": ops, "perturb": rng.choice(PERTURBS)}
+
+
+def exec_slplan_history(hist, rp):
+    from ciderpress.dft.plans import SemilocalPlan
+    from ciderpress.dft.settings import SemilocalSettings
+    from cidersim.workloads import omp_workloads as W
+
+    viol = []
+    stats = Counter()
+    dg = Digest()
+
+    def V(key, detail):
+        viol.append({"key": key, "detail": detail, "replay": rp})
+
+    set_perturb(hist["perturb"])
+    st = SemilocalSettings(hist["mode"])
+    nspin, n = hist["nspin"], hist["n"]
+    plan = SemilocalPlan(st, nspin)
+    nprng = np.random.default_rng(hist["dseed"])
+    nrho = 5 if st.level == "MGGA" else 4
+    rhos = [np.stack([W._rho_data(nprng, 5, n)[:nrho] for _ in range(nspin)]) for _ in range(3)]
+    vfs = [nprng.normal(size=(nspin, st.nfeat, n)) for _ in range(3)]
+    for step, op in enumerate(hist["ops"]):
+        stats["op_slplan_" + op["op"]] += 1
+        dg.add(op["op"], op["rho"])
+        try:
+            fresh = SemilocalPlan(SemilocalSettings(hist["mode"]), nspin)
+            r_in = rhos[op["rho"]].copy()
+            if op["op"] == "feat":
+                b = adigest(r_in)
+                got = plan.get_feat(r_in)
+                same = adigest(r_in) == b
+                ref = fresh.get_feat(rhos[op["rho"]].copy())
+                name = "feat"
+            else:
+                v_in = vfs[op["v"]].copy()
+                b = adigest(r_in, v_in)
+                if op["into"]:
+                    buf = np.full((nspin, 5, n), 0.25)
+                    got = plan.get_vxc(r_in, v_in, vxc=buf)
+                    ref = fresh.get_vxc(rhos[op["rho"]].copy(), vfs[op["v"]].copy(), vxc=np.full((nspin, 5, n), 0.25))
+                else:
+                    got = plan.get_vxc(r_in, v_in)
+                    ref = fresh.get_vxc(rhos[op["rho"]].copy(), vfs[op["v"]].copy())
+                same = adigest(r_in, v_in) == b
+                name = "vxc"
+            if not same:
+                V("input-mutated:SemilocalPlan.get_%s:rho-or-vfeat" % name, "step %d" % step)
+            ok, why = close(got, ref, 1e-13)
+            stats["comparisons"] += 1
+            stats["reference_calls"] += 1
+            if not ok:
+                V("history_vs_fresh:SemilocalPlan.get_%s:%s" % (name, hist["mode"]), "step %d after %s: %s" % (step, [o["op"] for o in hist["ops"][:step]][-3:], why))
+        except Exception as ex:
+            V("call-raises:SemilocalPlan.%s:%s" % (op["op"], type(ex).__name__), "step %d: %s" % (step, str(ex)[:200]))
+            break
+    return viol, stats, dg
+
+
 def gen_plan_history(seed):
     from cidersim.workloads import omp_workloads as W
 
+    if seed % 3 == 0:
+        return gen_slplan_history(seed)
     rng = Rng(derive("c09-plan", seed))
     p = W.draw_plan_params(rng)
     p["nspin"] = rng.choice([1, 2, 2])
@@ -966,7 +1057,7 @@ def exec_eval_history(hist, rp):
 
 
 # ---------------------------------------------------------------------------------
-EXEC = {"ni": exec_ni_history, "nldfgen": exec_nldfgen_history, "sdmxgen": exec_sdmxgen_history, "eval": exec_eval_history, "plan": exec_plan_history, "ks": exec_ks_history}
+EXEC = {"ni": exec_ni_history, "nldfgen": exec_nldfgen_history, "sdmxgen": exec_sdmxgen_history, "eval": exec_eval_history, "plan": exec_plan_history, "ks": exec_ks_history, "slplan": exec_slplan_history}
 
 
 def gen_history(kind, seed):
@@ -1127,6 +1218,7 @@ def coverage(done, tier):
             "rks_calls": tot["calls_rks"],
             "generator_drops_reset_or_build": tot["generator_drops"],
             "grids_rebuilt_in_place_for_other_molecule": tot["grids_rebuilt_in_place"],
+            "molecules_displaced_in_place_then_reset": tot["in_place_displacements"],
             "alias_readonly": tot["alias_readonly"],
             "alias_fortran_order": tot["alias_fortran"],
             "alias_same_array_both_spins": tot["alias_sameab"],
